@@ -164,4 +164,27 @@ def verifyStatus (a : VerifyArgs) (work : CliOutcome) : Nat := exitStatus .verif
 def signStatus (a : SignArgs) (f : SignFile) (work : CliOutcome) : Nat :=
   exitStatus (if a.verify then .signVerify else .sign) (signOutcome a f work)
 
+
+/-! ## in-toto-sign: what is signed and where it is written (`_sign_and_dump_metadata`) -/
+
+/-- The key ids of the signature list after the call: the given keys' signatures are
+appended to the existing ones (`--append`) or replace them. -/
+def signKeyids (append : Bool) (present given : List Str) : List Str :=
+  (if append then present else []) ++ given
+
+inductive PayloadKind where
+  | link (name : Str)
+  | layout
+  deriving DecidableEq, Repr
+
+/-- Where the signed metadata is written: `--output` if given (and not empty); a
+link under `<name>.<first 8 of the last signing key id>.link`; a layout over the
+input file. -/
+def signOutPath (output : Option Str) (file : Str) (kind : PayloadKind) (lastKeyid : Option Str) : Option Str :=
+  if truthyStr output then output
+  else
+    match kind with
+    | .link name => lastKeyid.map (fun k => name ++ '.' :: trunc8 k ++ lit ".link")
+    | .layout => some file
+
 end InToto
